@@ -1,6 +1,6 @@
 (* Property C14 -- every operation causes a bounded message burst, then silence *)
 (* Statements only: each theorem restates the proved lemma's statement and is closed by [exact]. *)
-From NunDB Require Import Model.Base Model.Pending Model.Parse Model.Node Model.Oplog Model.Cluster Proofs.PendingProofs Proofs.DbProofs Proofs.ClusterProofs Proofs.SyncProofs.
+From NunDB Require Import Model.Base Model.Pending Model.Parse Model.Node Model.Oplog Model.Cluster Proofs.PendingProofs Proofs.DbProofs Proofs.ClusterProofs Proofs.SyncProofs Proofs.ConvergeProofs.
 Local Open Scope Z_scope.
 
 (* the replication thread of a secondary queues nothing for any member and registers nothing *)
@@ -85,3 +85,57 @@ Theorem C14_leader_repl_one :
          cn_dead (repl_one x ("rp " +++ N_to_str id +++ " " +++ req)) = false.
 Proof. exact leader_repl_one. Qed.
 Print Assumptions C14_leader_repl_one.
+
+(* cluster level: one accepted write on the primary = exactly one line per secondary (the burst is bounded by the fan-out) *)
+Theorem C14_primary_write_queues :
+  forall (P dbn : str) (Ss : list str) (cidx : nat) (lk : str -> nat) (c : cluster) (w : cop) (B : N),
+         simple_tok dbn ->
+         (forall S : str, In S Ss -> simple_tok S) ->
+         Formed P dbn Ss cidx lk c ->
+         cop_ok w ->
+         cl_bound c B ->
+         (B + 2 <= 2 ^ 64)%N ->
+         resp_ok (snd (client_cmd c P cidx (cop_line w))) = true ->
+         let c2 := poll_repl_c (fst (client_cmd c P cidx (cop_line w))) P in
+         exists (dp : db) (opp id : N),
+           db_of dbn c P = Some dp /\
+           resp_ok (dop_resp dp (cop_dop w opp)) = true /\
+           db_of dbn c2 P = Some (db_apply dp (cop_dop w opp)) /\
+           (forall (S : str) (l : link),
+            In S Ss ->
+            nth_error (c_links c) (lk S) = Some l ->
+            exists l2 : link,
+              nth_error (c_links c2) (lk S) = Some l2 /\
+              l_q l2 = l_q l ++ [rp_line id (op_req dbn (cop_dop w opp))]).
+Proof. exact primary_write_queues. Qed.
+Print Assumptions C14_primary_write_queues.
+
+(* a secondary answers a replicated line with one ack and 'ok' and sends nothing else: then silence *)
+Theorem C14_replicated_line_applies :
+  forall (n : node) (sv : nat) (dbn : str) (d : db) (id : N) (o : dop),
+         simple_tok dbn ->
+         simple_tok (n_addr n) ->
+         op_wf o ->
+         (id < 2 ^ 64)%N ->
+         s_auth (get_sess n sv) = true ->
+         s_db (get_sess n sv) = None ->
+         s_inbox (get_sess n sv) = [] ->
+         get_db n dbn = Some d ->
+         d_strat d = SNone ->
+         no_watch d sv ->
+         let
+         '(n1, r) := step n sv (rp_line id (op_req dbn o)) in
+          let status := match r with
+                        | RError msg => "error " +++ msg +++ " " +++ nlS
+                        | _ => "ok " +++ nlS
+                        end in
+          let
+          '(n3, inbox) := drain (send n1 sv status) sv in
+           exists o' : dop,
+             same_op o o' /\
+             get_db n3 dbn = Some (db_apply d o') /\
+             n_members n3 = n_members n /\
+             n_pending n3 = n_pending n /\
+             n_role n3 = n_role n /\ split_lines inbox = [ack_text id (n_addr n); "ok"].
+Proof. exact replicated_line_applies. Qed.
+Print Assumptions C14_replicated_line_applies.
